@@ -214,6 +214,7 @@ func (h *Handler6) ProcessPacket(pkt packet.Frame) (err error) {
 		router.DefaultLifetime = time.Duration(time.Duration(frame.Lifetime()) * time.Second)
 		router.ReacheableTime = int(frame.ReachableTime())
 		router.RetransTimer = int(frame.RetransmitTimer())
+		router.MTU = uint32(options.MTU)
 		// curPrefix := router.Options.FirstPrefix // keep current prefix
 		router.Options = options
 		router.Prefixes = options.Prefixes
